@@ -178,6 +178,7 @@ type verdict struct {
 	bad     bool
 	detail  string
 	outcome string
+	label   string // what is wrong (roles of the lost entries)
 	wlen    int // length of the last write
 }
 
@@ -245,7 +246,16 @@ func (r *runner) build(sessions [][]int) {
 		if err != nil {
 			r.harness("history file not written: %v", err)
 		}
+		if pre > len(b) {
+			// the file shrank while writing: the oracle will report the lost entries; no crash points
+			r.c.Extra("histories whose file shrank during the last Write", 1)
+			pre = len(b)
+		}
 		last := b[pre:]
+		if len(last) == 0 {
+			r.full, r.pre, r.builtKey = b, pre, key
+			return
+		}
 		const head = `{"datetime":"`
 		q := strings.IndexByte(string(last[min(len(head), len(last)):]), '"')
 		// 2006-01-02T15:04:05.123456789 + zone
@@ -291,20 +301,37 @@ func (r *runner) eval(k kase) *verdict {
 			r.harness("Write failed: %v", err)
 		}
 	}
-	got := collapse(reload(r.file))
+	raw := reload(r.file)
+	got := collapse(raw)
 
-	var acked []string
+	// expected entries, each tagged with its role in the case
+	type ent struct {
+		text string
+		tag  string
+	}
+	var all []ent
 	for _, s := range k.sessions {
 		for _, x := range s {
-			acked = append(acked, blocks[x].text)
+			all = append(all, ent{blocks[x].text, "before"})
 		}
 	}
-	var aft []string
-	for _, x := range k.after {
-		aft = append(aft, blocks[x].text)
+	all[len(all)-1].tag = "last"
+	for i, x := range k.after {
+		all = append(all, ent{blocks[x].text, "after" + strconv.Itoa(min(i+1, 2))})
 	}
-	with := collapse(append(append([]string{}, acked...), aft...))
-	without := collapse(append(append([]string{}, acked[:len(acked)-1]...), aft...))
+	expect := func(withLast bool) (texts []string, tags []string) {
+		for _, e := range all {
+			if e.tag == "last" && !withLast {
+				continue
+			}
+			texts = append(texts, e.text)
+			tags = append(tags, e.tag)
+		}
+		return
+	}
+	withRaw, withTags := expect(true)
+	withoutRaw, withoutTags := expect(false)
+	with, without := collapse(withRaw), collapse(withoutRaw)
 	v := &verdict{wlen: wlen}
 	switch {
 	case eq(got, with):
@@ -317,8 +344,13 @@ func (r *runner) eval(k kase) *verdict {
 	default:
 		v.bad = true
 		exp := show(with)
+		var n int
+		v.label, n = diff(withRaw, withTags, raw)
 		if cut < wlen {
 			exp += " or " + show(without)
+			if l2, n2 := diff(withoutRaw, withoutTags, raw); n2 < n {
+				v.label = l2
+			}
 		}
 		v.detail = fmt.Sprintf("reload gives %s, expected %s (last write %d bytes, cut after %d)", show(got), exp, wlen, cut)
 	}
@@ -327,6 +359,64 @@ func (r *runner) eval(k kase) *verdict {
 	}
 	r.memo[key] = v
 	return v
+}
+
+// diff names what differs between the acknowledged entries and the reloaded ones (both as
+// written, not collapsed): the roles of the
+// expected entries that are missing (longest common subsequence alignment) and "extra" when the
+// reload contains an entry that was not expected there.
+func diff(exp []string, tags []string, got []string) (string, int) {
+	n, m := len(exp), len(got)
+	l := make([][]int, n+1)
+	for i := range l {
+		l[i] = make([]int, m+1)
+	}
+	for i := n - 1; i >= 0; i-- {
+		for j := m - 1; j >= 0; j-- {
+			if exp[i] == got[j] {
+				l[i][j] = l[i+1][j+1] + 1
+			} else {
+				l[i][j] = max(l[i+1][j], l[i][j+1])
+			}
+		}
+	}
+	lost := map[string]bool{}
+	extra := false
+	cnt := 0
+	i, j := 0, 0
+	for i < n && j < m {
+		switch {
+		case exp[i] == got[j]:
+			i++
+			j++
+		case l[i+1][j] >= l[i][j+1]:
+			lost[tags[i]] = true
+			cnt++
+			i++
+		default:
+			extra = true
+			cnt++
+			j++
+		}
+	}
+	for ; i < n; i++ {
+		lost[tags[i]] = true
+		cnt++
+	}
+	if j < m {
+		extra = true
+	}
+	var out []string
+	for _, t := range []string{"before", "last", "after1", "after2"} {
+		if lost[t] {
+			out = append(out, t)
+		}
+	}
+	s := "lost:" + strings.Join(out, "+")
+	if extra {
+		s += " extra"
+	}
+	return s, cnt
 }
 
 func key0(k kase) string { return kase{sessions: k.sessions}.String() }
@@ -439,7 +529,7 @@ func crashPoints(n int, quick bool) []int {
 	}
 	edge := 256
 	if quick {
-		edge = 48
+		edge = 16
 	}
 	seen := map[int]bool{}
 	add := func(i int) {
@@ -451,7 +541,12 @@ func crashPoints(n int, quick bool) []int {
 	for i := 0; i <= edge; i++ {
 		add(i)
 	}
-	for p := 4096; p < n; p += 4096 {
+	nb := (n - 1) / 4096
+	for b := 1; b <= nb; b++ {
+		p := b * 4096
+		if quick && b > 2 && b < nb-1 && (b < 15 || b > 17) {
+			continue // quick: the first/last two boundaries and those around 64 KiB
+		}
 		for d := -2; d <= 2; d++ {
 			if quick && (d == -2 || d == 2) {
 				continue
@@ -474,6 +569,7 @@ func crashPoints(n int, quick bool) []int {
 type bounds struct {
 	nblocks   int
 	maxCmds   int
+	maxLong   int // longest command sequence that may contain an entry > 64 KiB
 	maxSess   int
 	afters    [][]int
 	quick     bool
@@ -484,10 +580,10 @@ func getBounds(quick bool) bounds {
 	b := bounds{quick: quick}
 	afterAlpha := []int{0, 2}
 	if quick {
-		b.nblocks, b.maxCmds, b.maxSess = 5, 3, 2
+		b.nblocks, b.maxCmds, b.maxLong, b.maxSess = 5, 3, 2, 2
 		b.afterDesc = "every sequence of <= 2 commands over {a, ml}"
 	} else {
-		b.nblocks, b.maxCmds, b.maxSess = 6, 4, 3
+		b.nblocks, b.maxCmds, b.maxLong, b.maxSess = 6, 4, 3, 3
 		b.afterDesc = "every sequence of <= 2 commands over {a, ml}, plus [L70k]"
 	}
 	vlib.Seqs(len(afterAlpha), 0, 2, func(idx []int) bool {
@@ -508,6 +604,13 @@ func getBounds(quick bool) bounds {
 func histories(b bounds, fn func(sessions [][]int) bool) {
 	vlib.Seqs(b.nblocks, 1, b.maxCmds, func(idx []int) bool {
 		n := len(idx)
+		if n > b.maxLong {
+			for _, x := range idx {
+				if len(blocks[x].text) > 65536 {
+					return true
+				}
+			}
+		}
 		// cuts: bitmask over the n-1 gaps
 		for mask := 0; mask < 1<<(n-1); mask++ {
 			var sessions [][]int
@@ -579,14 +682,14 @@ func (r *runner) judge(k kase, prevCrash int, sample bool) {
 		return
 	}
 	for _, red := range r.reductions(k, prevCrash) {
-		if r.eval(red).bad {
-			c.Eval(nt, "violates (a simpler case violates too)")
+		if rv := r.eval(red); rv.bad && rv.label == v.label {
+			c.Eval(nt, "violates "+v.label+" (a simpler case too)")
 			c.Extra("violating cases subsumed by a simpler violating case", 1)
 			return
 		}
 	}
-	c.Eval(nt, "violates (minimal)")
-	c.Violation("reload", k.String(), v.detail)
+	c.Eval(nt, "violates "+v.label+" (minimal)")
+	c.Violation("reload", k.String()+" #"+v.label, v.detail)
 }
 
 func run(c *vlib.Ctx) {
@@ -617,6 +720,9 @@ func run(c *vlib.Ctx) {
 }
 
 func replay(c *vlib.Ctx, w string) {
+	if i := strings.Index(w, " #"); i >= 0 {
+		w = w[:i]
+	}
 	k, ok := parseKase(w)
 	if !ok {
 		fmt.Println("cannot parse witness", w)
@@ -624,14 +730,14 @@ func replay(c *vlib.Ctx, w string) {
 	}
 	r := setup(c)
 	if v := r.eval(k); v.bad {
-		c.Violation("reload", k.String(), v.detail)
+		c.Violation("reload", k.String()+" #"+v.label, v.detail)
 	}
 }
 
 func init() {
 	vlib.Register(&vlib.Check{
 		ID: "C29", Engine: "E4",
-		Rule: "histories = every sequence of 1..n commands over the block alphabet {a, 'a b', two-line, unicode+quote+backslash, 70 KiB line; thorough adds a 200 KiB line} cut in every way into <= s sessions (quick n=3 s=2, thorough n=4 s=3), written by the real history.New/History.Write; the file is then truncated at every byte offset of the last write (entries >= 4 KiB: the first and last 48/256 offsets and every 4096-byte boundary +-1/+-2) or left complete, one further session appends every sequence of <= 2 commands over {a, two-line} (thorough also the 70 KiB line), and a final session reloads; oracle: reload with consecutive duplicates collapsed = acknowledged commands (with or, if the write was cut, without the cut one); non-trivial = the cut is strictly inside the write, or the history contains a consecutive duplicate or an entry longer than 64 KiB; a violating case is listed only when none of its one-step reductions (no crash, previous offset, drop a command, merge sessions, simpler block) violates",
+		Rule: "histories = every sequence of 1..n commands over the block alphabet {a, 'a b', two-line, unicode+quote+backslash, 70 KiB line; thorough adds a 200 KiB line} cut in every way into <= s sessions (quick n=3 s=2, thorough n=4 s=3; sequences containing an entry > 64 KiB only up to n-1 commands), written by the real history.New/History.Write; the file is then truncated at every byte offset of the last write (entries >= 4 KiB: thorough the first and last 256 offsets and every 4096-byte boundary +-2; quick the first and last 16 offsets and the first two, last two and 60-68 KiB boundaries +-1) or left complete, one further session appends every sequence of <= 2 commands over {a, two-line} (thorough also the 70 KiB line), and a final session reloads; oracle: reload with consecutive duplicates collapsed = acknowledged commands (with or, if the write was cut, without the cut one); non-trivial = the cut is strictly inside the write, or the history contains a consecutive duplicate or an entry longer than 64 KiB; each violation is labelled with the roles of the lost entries (before = acknowledged before the cut write, last = the completed last write, after1/after2 = first/later entry of the next session; the label is appended to the witness after '#'), and a violating case is listed only when none of its one-step reductions (no crash, previous offset, drop a command, merge sessions, simpler block) violates with the same label",
 		Run:    run,
 		Replay: replay,
 		Assumptions: []string{
